@@ -16,7 +16,7 @@ ONext == /\ l = 1 /\ l' = 2 /\ UNCHANGED <<tid, slot, listing, path, trailing>>
 \* <<Safe on the observation, Reachable on the observation, observation equals the model's answer (modulo three-valued cases)>>
 Agrees == LET m == Serve IN
           \/ (out.st = m.st /\ out.node = m.node /\ out.what = m.what)
-          \/ (m.what = "error" /\ out.st \notin 20..29)
+          \/ m.what = "error"          \* a path through a looping link: realpath's answer is left open (Safe still judged)
           \/ (m.mayfail /\ out.st \notin 20..29)
 Flags == IF l = 1 THEN <<TRUE, TRUE, TRUE>> ELSE <<Safe, Reachable, Agrees>>
 Report == PrintT(<<"REACHED", tid, l, 2, Flags>>)
